@@ -102,6 +102,26 @@ def conclude(ctx, prop, results, wall):
                 failures.append(dict(f, unit=r["unit"], engine=r["engine"]))
     violations, known_hit, stale = [], [], []
     lines = []
+    # thorough tier: bounded searches through the real API (see ./check)
+    bounded_searches = []
+    done_searches = set()
+    for r in results:
+        spec = r.get("thorough_search")
+        if not spec or json.dumps(spec, sort_keys=True) in done_searches:
+            continue
+        done_searches.add(json.dumps(spec, sort_keys=True))
+        import replay_runner
+        f = {"obligation": "%s#bounded-api-search" % r["unit"], "props": None, "message": "the bounded search through the real public API (%s) found a failing input" % spec.get("name"),
+             "item": r["unit"], "detail": "", "search": spec, "unit": r["unit"], "engine": "replay"}
+        try:
+            w = replay_runner.search(ctx, spec, f)
+        except Exception as e:
+            w = None
+            f["search_error"] = str(e)
+        bounded_searches.append({"obligation": f["obligation"], "kind": "bounded", "bound": "enumeration coded in replay/src/main.rs::%s" % spec.get("name"), "found_failing_input": w is not None})
+        if w is not None:
+            f["counterexample_from_search"] = w
+            failures.append(f)
     # undecided units: no proof either way.  If a counterexample search through the real public API is registered for the
     # unit and finds a failing input, that input IS a violation (replayed on the real code); otherwise the unit stays undecided.
     for r in list(undecided):
@@ -194,7 +214,7 @@ def conclude(ctx, prop, results, wall):
             "trusted_base": t2,
             "samples": samples[:12],
             "functions_under_contract": functions,
-            "bounded": bounded,
+            "bounded": bounded + bounded_searches,
             "known_findings_hit": [k["obligation"] for k in known_hit],
             "witness_only_findings_hit": witness_only,
             "stale_known_findings": stale,
